@@ -190,7 +190,7 @@ pub fn check(c: &PathCase, obs: &mut Obs) -> Result<(), String> {
 
 fn run(ctx: &mut Ctx) {
     let cases = ctx.share(ctx.tier.pick(500_000, 5_000_000));
-    let p = ctx.tier.pick(TreeParams::quick(), TreeParams::thorough());
+    let p = ctx.tier.pick(TreeParams::quick(), TreeParams::thorough()).with_big(1);
     run_strategy(ctx, "C08", "eval", cases, arb_path_for(p), check);
 }
 
